@@ -27,27 +27,30 @@ def build_all(tier):
 
     arg_pool = leaf_args + nested
     arg_tuples = [()] + [(a,) for a in arg_pool] + [(a, b) for a in arg_pool[:3] + nested[:1] for b in arg_pool[:2] + nested[:2]]
-    kw_sets = [{}, {"k": 0}, {"k": 1}, {"j": 0}]
+    kw_sets = [{}, {"k": 0}, {"k": 1}, {"j": 0}, {"k": True}, {"k": 0.0}]
     if tier == "quick":
         arg_tuples = arg_tuples[:22]
+    # arguments that compare equal but are different values: f(1), f(True) and f(1.0) are three different calls
+    twins = [(True,), (1.0,), (False,), (0.0,), (1, True), (True, 1)]
+    arg_tuples = arg_tuples + twins
     for name in ("vf.inc", "vf.add"):
         for args in arg_tuples:
             for kw in kw_sets:
                 for o in opts:
                     for ex in exports:
-                        ident = ("T", name, (tuple(ident_of_arg(a) for a in args), tuple(sorted(kw.items()))), tuple(sorted(o.items())), tuple(sorted(ex)))
+                        ident = ("T", name, (tuple(ident_of_arg(a) for a in args), tuple(sorted((k, repr(v), type(v).__name__) for k, v in kw.items()))), tuple(sorted(o.items())), tuple(sorted(ex)))
                         out.append((ident, TaskExpression(name, args, dict(kw), task_options=dict(o), export_options=set(ex))))
     for name in ("redun.cond", "redun.seq"):
-        for args in arg_tuples[:14]:
+        for args in arg_tuples[:14] + twins:
             for kw in kw_sets[:2]:
                 for o in opts[:3]:
                     for ex in exports[:2]:
-                        ident = ("S", name, (tuple(ident_of_arg(a) for a in args), tuple(sorted(kw.items()))), tuple(sorted(o.items())), tuple(sorted(ex)))
+                        ident = ("S", name, (tuple(ident_of_arg(a) for a in args), tuple(sorted((k, repr(v), type(v).__name__) for k, v in kw.items()))), tuple(sorted(o.items())), tuple(sorted(ex)))
                         out.append((ident, SchedulerExpression(name, args, dict(kw), task_options=dict(o), export_options=set(ex))))
     for fn in ("getitem", "add", "radd", "mul", "rmul", "sub", "rsub", "getattr", "call"):
-        for args in arg_tuples[:20]:
+        for args in arg_tuples[:20] + twins:
             for kw in kw_sets[:2]:
-                ident = ("O", fn, (tuple(ident_of_arg(a) for a in args), tuple(sorted(kw.items()))), (), ())
+                ident = ("O", fn, (tuple(ident_of_arg(a) for a in args), tuple(sorted((k, repr(v), type(v).__name__) for k, v in kw.items()))), (), ())
                 out.append((ident, SimpleExpression(fn, args, dict(kw))))
     for v in leaf_args + [1.0, True, None, "1"]:
         out.append((("V", repr(v), type(v).__name__), ValueExpression(v)))
@@ -107,7 +110,7 @@ def run(ctx):
         "distinct_nontrivial": len(by_ident),
         "distinct_hashes": len(by_hash),
         "exhaustive": True,
-        "rule": "all Task/Scheduler/Simple/Value expressions over 2 task / scheduler-task names and 9 operator names (direct and reflected forms), argument tuples of length <=2 over concrete values and nested "
+        "rule": "all Task/Scheduler/Simple/Value expressions over 2 task / scheduler-task names and 9 operator names (direct and reflected forms), argument tuples of length <=2 over concrete values (incl. the equal-but-different 0/False/0.0 and 1/True/1.0) and nested "
         "expressions (incl. one differing only in its options), keyword sets, 5 call-time option sets, 3 exported-option sets; oracle over all "
         "pairs: hash equal <=> (kind, name, args, options, exported) equal; pickle round trip keeps hash/args/options and resets call_hash/_upstreams",
         "samples": [repr(items[i][1]) for i in (0, len(items) // 2, len(items) - 1)],
